@@ -467,6 +467,8 @@ func checkC08(w *World, r *Report) {
 	checkShortCircuit(w, r)
 	checkNameShortcut(w, r)
 	checkPrecedenceDescent(w, r)
+	checkNumberFormatting(w, r)
+	checkMembershipEquality(w, r, evalCases)
 }
 
 func keysOf(m map[int64]bool) []int64 {
@@ -845,4 +847,313 @@ func identOf(e ast.Expr) *ast.Ident {
 		return x.Sel
 	}
 	return &ast.Ident{}
+}
+
+// checkNumberFormatting — R08.7: the digits of a number that a template prints come from the
+// standard library.  The value of `a * b + c` is only "the same in every place it can be
+// written" if every place turns it into text the same, exact way; a hand-written digit loop
+// (`'0' + i%10`) is exact only for the range its author had in mind.  Obligation: every function
+// of the package that produces decimal digits by arithmetic; it must not be reachable from a
+// render root (today they serve the exported Buffer utilities only).
+func checkNumberFormatting(w *World, r *Report) {
+	reach := w.renderOnlyReachable()
+	n := 0
+	for _, fn := range w.pkgFuncs() {
+		var at ssa.Instruction
+		instrsOf(fn, func(in ssa.Instruction) {
+			bo, ok := in.(*ssa.BinOp)
+			if !ok || bo.Op != token.REM || at != nil {
+				return
+			}
+			c, ok := bo.Y.(*ssa.Const)
+			if !ok || c.Value == nil || c.Value.Kind() != constant.Int {
+				return
+			}
+			if v, _ := constant.Int64Val(c.Value); v != 10 {
+				return
+			}
+			// … + '0' (through conversions)
+			seen := map[ssa.Value]bool{}
+			var digit func(v ssa.Value, d int) bool
+			digit = func(v ssa.Value, d int) bool {
+				if seen[v] || d > 4 || v.Referrers() == nil {
+					return false
+				}
+				seen[v] = true
+				for _, ref := range *v.Referrers() {
+					switch x := ref.(type) {
+					case *ssa.Convert:
+						if digit(x, d+1) {
+							return true
+						}
+					case *ssa.BinOp:
+						if x.Op == token.ADD {
+							for _, o := range []ssa.Value{x.X, x.Y} {
+								if k, ok := o.(*ssa.Const); ok && k.Value != nil && k.Value.Kind() == constant.Int {
+									if kv, _ := constant.Int64Val(k.Value); kv == '0' {
+										return true
+									}
+								}
+							}
+						}
+					}
+				}
+				return false
+			}
+			if digit(bo, 0) {
+				at = in
+			}
+		})
+		if at == nil {
+			continue
+		}
+		n++
+		// capacity: the largest digit count the function provides for (the constants that flow
+		// into an integer phi that bounds a loop: `digits = 1 … 6`)
+		maxDigits := int64(0)
+		instrsOf(fn, func(in ssa.Instruction) {
+			ph, ok := in.(*ssa.Phi)
+			if !ok || !types.Identical(ph.Type().Underlying(), types.Typ[types.Int]) {
+				return
+			}
+			all, m := true, int64(0)
+			for _, e := range ph.Edges {
+				k, isC := e.(*ssa.Const)
+				if !isC || k.Value == nil || k.Value.Kind() != constant.Int {
+					all = false
+					break
+				}
+				if kv, _ := constant.Int64Val(k.Value); kv > m {
+					m = kv
+				}
+			}
+			if all && len(ph.Edges) >= 2 && m >= 1 && m <= 18 && m > maxDigits {
+				maxDigits = m
+			}
+		})
+		capacity := int64(0)
+		if maxDigits > 0 {
+			capacity = 1
+			for k := int64(0); k < maxDigits; k++ {
+				capacity *= 10
+			}
+			capacity-- // largest magnitude that fits
+		}
+		anyReach := false
+		for _, e := range realInEdges(fn) {
+			caller := e.Caller.Func
+			if e.Site == nil || !reach[caller] {
+				continue
+			}
+			anyReach = true
+			construct := "hand-written decimal formatter is called within its range"
+			pos := w.posOf(e.Site.Pos())
+			args := e.Site.Common().Args
+			var arg ssa.Value
+			for k, p := range fn.Params {
+				if b, ok := p.Type().Underlying().(*types.Basic); ok && b.Info()&types.IsInteger != 0 && k < len(args) {
+					arg = args[k]
+				}
+			}
+			if capacity == 0 || arg == nil || e.Site.Common().StaticCallee() != fn {
+				r.bad("R08.7", ssaName(caller), construct, pos, "digits are produced by arithmetic in "+ssaName(fn)+", which is reachable from a render root through this call, and the range it was written for cannot be established: the printed form of a number may differ from its value")
+				continue
+			}
+			capWithin = capacity
+			lo, hi := magnitudeGuards(arg, e.Site)
+			if lo && hi {
+				r.ok("R08.7", ssaName(caller), construct, pos, fmt.Sprintf("argument tested against constants within ±%d (%d digits) before the call", capacity, maxDigits), true)
+			} else {
+				r.bad("R08.7", ssaName(caller), construct, pos, fmt.Sprintf("%s formats at most %d digits, and this call — reachable from a render root (%s) — passes a value that is not confined to ±%d first: a larger number is printed without its leading digits, so `{{ 1000 * 1000 }}` prints 000000 while the same value compares and concatenates correctly", ssaName(fn), maxDigits, strings.Join(w.pathTo(w.renderRoots(), caller), " → "), capacity))
+			}
+		}
+		if !anyReach {
+			r.ok("R08.7", ssaName(fn), "hand-written decimal formatter is not on a render path", w.posOf(at.Pos()), "no call site is reachable from a render root: template numbers are formatted by strconv/fmt only", true)
+		}
+		_ = capacity
+	}
+	r.Counts["hand-written decimal formatters"] = n
+}
+
+// magnitudeGuards: the call is dominated by tests that bound the argument (or the value it was
+// converted from, or that value plus/minus one) from below and from above by constants.  The
+// constants are checked against the capacity by the caller through capWithin.
+var capWithin int64
+
+func magnitudeGuards(arg ssa.Value, site ssa.CallInstruction) (lo, hi bool) {
+	// candidates: the argument, and what it is derived from through conversions and ±1
+	cands := []ssa.Value{arg}
+	for k := 0; k < len(cands) && k < 8; k++ {
+		switch x := cands[k].(type) {
+		case *ssa.Convert:
+			cands = append(cands, x.X)
+		case *ssa.BinOp:
+			if x.Op == token.ADD || x.Op == token.SUB {
+				if c, ok := x.Y.(*ssa.Const); ok && c.Value != nil && c.Value.Kind() == constant.Int {
+					if kv, _ := constant.Int64Val(c.Value); kv >= -1 && kv <= 1 {
+						cands = append(cands, x.X)
+					}
+				}
+			}
+		case *ssa.UnOp:
+			if u := unspill(x); u != ssa.Value(x) {
+				cands = append(cands, u)
+			}
+		}
+	}
+	isCand := func(v ssa.Value) bool {
+		for _, c := range cands {
+			if sameValue(c, v) || sameValue(unspill(c), unspill(v)) {
+				return true
+			}
+		}
+		return false
+	}
+	fn := site.Parent()
+	flow := func(upper bool) bool {
+		fl := &boolFlow{fn: fn, entry: false}
+		fl.edge = func(b *ssa.BasicBlock, i int) bool {
+			return anyEdgeFact(b, i, func(v ssa.Value, trueIdx int) bool {
+				bo, ok := v.(*ssa.BinOp)
+				if !ok {
+					return false
+				}
+				x, y, op := bo.X, bo.Y, bo.Op
+				if _, isC := x.(*ssa.Const); isC {
+					x, y = y, x
+					switch op {
+					case token.LSS:
+						op = token.GTR
+					case token.GTR:
+						op = token.LSS
+					case token.LEQ:
+						op = token.GEQ
+					case token.GEQ:
+						op = token.LEQ
+					}
+				}
+				c, isC := y.(*ssa.Const)
+				if !isC || c.Value == nil || !isCand(x) {
+					return false
+				}
+				if i != trueIdx {
+					switch op {
+					case token.LSS:
+						op = token.GEQ
+					case token.LEQ:
+						op = token.GTR
+					case token.GTR:
+						op = token.LEQ
+					case token.GEQ:
+						op = token.LSS
+					default:
+						return false
+					}
+				}
+				f, _ := constant.Float64Val(constant.ToFloat(c.Value))
+				if upper {
+					return (op == token.LSS || op == token.LEQ) && f <= float64(capWithin)+1
+				}
+				return (op == token.GTR || op == token.GEQ) && f >= -float64(capWithin)-1
+			})
+		}
+		fl.solve()
+		return fl.at(site)
+	}
+	return flow(false), flow(true)
+}
+
+// checkMembershipEquality — R08.8: `x in [y]` holds exactly when `x == y` does.  The evaluator's
+// `==` arm answers through one equality routine (numeric comparison when both sides are numbers,
+// text otherwise); the `in` / `not in` arms must decide membership in a list with that same
+// routine: the function they hand the operands to reaches it through static calls.  A
+// containment helper with an equality of its own (string forms, reflect.DeepEqual) makes
+// `1 in ['1.0']` and `1 == '1.0'` disagree.
+func checkMembershipEquality(w *World, r *Report, evalCases map[string]*ast.CaseClause) {
+	pkgCallees := func(n ast.Node) []*types.Func {
+		var out []*types.Func
+		ast.Inspect(n, func(x ast.Node) bool {
+			call, ok := x.(*ast.CallExpr)
+			if !ok {
+				return true
+			}
+			var id *ast.Ident
+			switch f := call.Fun.(type) {
+			case *ast.Ident:
+				id = f
+			case *ast.SelectorExpr:
+				id = f.Sel
+			}
+			if id == nil {
+				return true
+			}
+			if fo, ok := w.Info.Uses[id].(*types.Func); ok && fo.Pkg() != nil && fo.Pkg().Path() == twigPath {
+				out = append(out, fo)
+			}
+			return true
+		})
+		return out
+	}
+	eqArm := evalCases["=="]
+	if eqArm == nil {
+		return
+	}
+	var eqFns []*ssa.Function
+	for _, fo := range pkgCallees(eqArm) {
+		sig := fo.Type().(*types.Signature)
+		if sig.Results().Len() == 1 && types.Identical(sig.Results().At(0).Type(), types.Typ[types.Bool]) && sig.Params().Len() == 2 {
+			eqFns = append(eqFns, w.ssaFunc(fo))
+		}
+	}
+	if len(eqFns) == 0 {
+		r.note("the == arm of evaluateBinaryOp calls no two-argument equality function of the package: R08.8 has no anchor")
+		return
+	}
+	n := 0
+	for _, op := range []string{"in", "not in"} {
+		arm := evalCases[op]
+		if arm == nil {
+			continue
+		}
+		callees := pkgCallees(arm)
+		if len(callees) == 0 {
+			continue
+		}
+		n++
+		construct := fmt.Sprintf("operator %q decides membership with the equality of ==", op)
+		found := false
+		var names []string
+		for _, fo := range callees {
+			names = append(names, fo.Name())
+			// static reachability, depth <= 3
+			seen := map[*ssa.Function]bool{}
+			var walk func(f *ssa.Function, d int)
+			walk = func(f *ssa.Function, d int) {
+				if f == nil || seen[f] || d > 3 || found {
+					return
+				}
+				seen[f] = true
+				for _, e := range eqFns {
+					if f == e {
+						found = true
+						return
+					}
+				}
+				instrsOf(f, func(in ssa.Instruction) {
+					if c, ok := in.(ssa.CallInstruction); ok {
+						if g := c.Common().StaticCallee(); g != nil && g.Pkg != nil && g.Pkg.Pkg.Path() == twigPath {
+							walk(g, d+1)
+						}
+					}
+				})
+			}
+			walk(w.ssaFunc(fo), 0)
+		}
+		if found {
+			r.ok("R08.8", "(*RenderContext).evaluateBinaryOp", construct, w.pos(arm), "the containment helper reaches "+eqFns[0].Name()+", the routine behind ==", true)
+		} else {
+			r.bad("R08.8", "(*RenderContext).evaluateBinaryOp", construct, w.pos(arm), "membership is decided by "+strings.Join(names, ", ")+", which never calls "+eqFns[0].Name()+" (the routine that answers ==): elements are compared by another equality (string forms, identity), so `1 in ['1.0']`, `true in [1]` or `'01' in [1]` disagree with the corresponding == comparison")
+		}
+	}
+	r.Counts["membership operators checked against =="] = n
 }
